@@ -7,6 +7,8 @@ from gen_map import plan_hash, PLANS
 BINOPS = ["union", "intersection", "difference", "symdiff", "is_subset", "is_superset", "is_disjoint", "eq",
           "bitor", "bitand", "bitxor", "sub", "or_assign", "and_assign", "xor_assign", "sub_assign"]
 
+SELFOPS = ["union", "intersection", "difference", "symdiff", "is_subset", "is_superset", "is_disjoint", "eq", "bitor", "bitand", "bitxor", "sub"]
+
 def make_script(rng, name, kind=None, plan=None, nkeys=None, length=None):
     kind = kind or rng.choice(["set-drop", "set-drop", "set-plain"])
     plan = plan or rng.choice(PLANS)
@@ -17,6 +19,11 @@ def make_script(rng, name, kind=None, plan=None, nkeys=None, length=None):
     stamp = 0
     steps = 0
     sizes = {"A": 0, "B": 0}
+    # the empty set paired with itself, never allocated / emptied but allocated
+    for op in rng.sample(SELFOPS, 4):
+        lines.append("self " + op)
+    if rng.random() < 0.5:
+        lines += ["A sinsert 1 0", "A sremove 1"] + ["self " + op for op in rng.sample(SELFOPS, 4)]
     while steps < length:
         phase = rng.choice(["fillA", "fillB", "mixed", "bin", "bin", "mirror", "shrink"])
         n = rng.randrange(1, 14)
@@ -55,8 +62,52 @@ def make_script(rng, name, kind=None, plan=None, nkeys=None, length=None):
             elif phase == "shrink":
                 lines.append(f"{t} " + rng.choice(["shrinktofit", f"shrinkto {rng.randrange(0, 30)}", f"reserve {rng.randrange(0, 40)}"]))
             else:
-                lines.append(rng.choice(BINOPS))
+                # one in five binary operations pairs A with ITSELF (the same object on both sides)
+                lines.append(("self " + rng.choice(SELFOPS)) if rng.random() < 0.2 else rng.choice(BINOPS))
             steps += 1
+    return f"=== {name} plan={plan} nkeys={nkeys}\n" + "\n".join(lines) + "\n"
+
+def make_eq_script(rng, name, kind=None):
+    """C11: == of two HashSets must not depend on capacity, removal history or which side is larger:
+    equal length with one differing element / identical contents / proper subsets, the left or the
+    right operand having the larger capacity (reserve, grown-then-emptied, shrunk)."""
+    kind = kind or rng.choice(["set-drop", "set-plain"])
+    plan = rng.choice(PLANS)
+    nkeys = 64
+    salt = rng.getrandbits(32)
+    lines = [f"kind {kind}"] + [f"hash {k} {plan_hash(plan, k, rng, salt)}" for k in range(nkeys + 4)]
+    stamp = [0]
+    def st():
+        stamp[0] += 1
+        return stamp[0]
+    for rnd in range(rng.choice([2, 3, 4])):
+        big, small = rng.choice([("A", "B"), ("B", "A")])
+        lines += ["A clear", "B clear", f"{small} shrinktofit"]
+        how = rng.choice(["reserve", "grow_then_empty", "tombstones"])
+        n = rng.choice([1, 2, 3, 5, 7, 12])
+        base = rng.sample(range(nkeys), n + 1)
+        if how == "reserve":
+            lines.append(f"{big} reserve {rng.choice([20, 50, 100])}")
+        elif how == "grow_then_empty":
+            for k in range(40):
+                lines.append(f"{big} sinsert {k} {st()}")
+            lines.append(f"{big} " + rng.choice(["clear", "retain 0", "drain 1000"]))
+        else:
+            for k in range(28):
+                lines.append(f"{big} sinsert {k} {st()}")
+            for k in range(28):
+                lines.append(f"{big} sremove {k}")
+        mode = rng.choice(["one_differs", "one_differs", "identical", "subset"])
+        for k in base[:n]:
+            lines.append(f"A sinsert {k} {st()}")
+            lines.append(f"B sinsert {k} {st()}")
+        if mode == "one_differs":
+            lines.append(f"A sinsert {base[n]} {st()}")
+            other = next(x for x in range(nkeys) if x not in base)
+            lines.append(f"B sinsert {other} {st()}")
+        elif mode == "subset":
+            lines.append(f"{rng.choice('AB')} sinsert {base[n]} {st()}")
+        lines += ["eq", "is_subset", "is_superset", "self eq", "A len", "B len"]
     return f"=== {name} plan={plan} nkeys={nkeys}\n" + "\n".join(lines) + "\n"
 
 if __name__ == "__main__":
